@@ -1,2 +1,249 @@
-import FpgoVerif.Model.C10
-/-! Property theorems for C10 (none yet). -/
+import FpgoVerif.Proofs.C10Log
+import FpgoVerif.Gen.Skeletons
+import FpgoVerif.Gen.C10Facts
+/-! Property theorems for C10 — "Publisher delivers each value exactly once per live subscription, in
+    order".  All `∀ s, Reach grow s → …` statements quantify over every schedule of every number of
+    goroutines, every re-entrant callback script (a goroutine inside a callback may start any
+    operation), and every slice growth policy `grow`; `Reach` is the closure of `step true`, the very
+    function the driver executes (`C10_run_reach`).
+
+    Reading of the ghost fields of a Publish call `f` (set by `step`, never read by it):
+    `f.snap` = registered subscriptions at the snapshot (the call's linearisation point; a
+    subscription registered before the call began is registered before the snapshot, an Unsubscribe
+    completed before the call began is completed before the snapshot), `f.n0` = ids below it were
+    handed out before the snapshot, `f.done0` = Unsubscribe calls completed before the snapshot,
+    `f.dl` = the subscriptions whose OnNext this call invoked (or posted to the handler), in order;
+    `r.regEnd` = the registered subscriptions when the call returned.  Ids are handed out in
+    subscription order, so `<` on ids is subscription order. -/
+namespace FpgoVerif.C10
+
+theorem reach_of_run (grow : Nat → Nat) (acts : List Act) :
+    ∀ s0 s, Reach grow s0 → run true grow s0 acts = some s → Reach grow s := by
+  induction acts with
+  | nil => intro s0 s r h; simp [run] at h; exact h ▸ r
+  | cons a as ih =>
+    intro s0 s r h
+    simp only [run] at h
+    cases hs : step true grow s0 a with
+    | none => rw [hs] at h; cases h
+    | some s1 => rw [hs] at h; exact ih s1 s (Reach.step a r hs) h
+
+/-- the driver's executions are `Reach`able: running any action list with `step true` from `init` -/
+theorem C10_run_reach (grow : Nat → Nat) (acts : List Act) (s : State)
+    (h : run true grow init acts = some s) : Reach grow s :=
+  reach_of_run grow acts init s .init h
+
+theorem count_of_sorted {l : List Nat} (h : l.Pairwise (· < ·)) (x : Nat) :
+    l.count x = if x ∈ l then 1 else 0 := by
+  have hnd : l.Nodup := h.imp (fun hab => Nat.ne_of_lt hab)
+  exact hnd.count
+
+/-- **Key lemma**: while a Publish is running, the cells its snapshot header denotes are never
+    overwritten — `append` writes only at index ≥ the snapshot length or into a fresh array, the
+    repaired Unsubscribe allocates — and what it has delivered is exactly a prefix of the snapshot. -/
+theorem C10_snapshot_stable (grow : Nat → Nat) (s : State) (r : Reach grow s) (t : Nat) (f : PubF)
+    (hf : .pub f ∈ s.stacks t) : content s.heap f.h = f.snap ∧ f.dl = f.snap.take f.k := by
+  have := (Inv_reach grow r).frames t _ hf
+  exact ⟨this.same, this.dl⟩
+
+/-- **C10_once** — for every finished Publish call `r`:
+    (1) a subscription registered before the call and still registered when it ends was invoked exactly once;
+    (2) a subscription whose Unsubscribe completed before the call was never invoked;
+    (3) nobody was invoked twice; (4) invocations happened in subscription order;
+    (5) only subscriptions registered before the call were invoked (one added during the call is not, a
+        removed one may be — "only the subscription being added or removed may or may not see it");
+    in fact (6) the invocations are exactly the snapshot. -/
+theorem C10_once (grow : Nat → Nat) (s : State) (hr : Reach grow s) (r : PubRec) (hmem : r ∈ s.ended) :
+    (∀ x, 0 < x → x < r.f.n0 → x ∈ r.regEnd → r.f.dl.count x = 1) ∧
+    (∀ x ∈ r.f.done0, r.f.dl.count x = 0) ∧
+    (∀ x, r.f.dl.count x ≤ 1) ∧
+    r.f.dl.Pairwise (· < ·) ∧
+    (∀ x ∈ r.f.dl, 0 < x ∧ x < r.f.n0) ∧
+    r.f.dl = r.f.snap := by
+  have ok := (Inv_reach grow hr).ended r hmem
+  have hs := ok.static.sorted
+  rw [ok.all]
+  refine ⟨?_, ?_, ?_, hs, ok.static.old, rfl⟩
+  · intro x h0 hx hreg
+    rw [count_of_sorted hs]; simp [ok.kept x h0 hx hreg]
+  · intro x hx
+    rw [count_of_sorted hs]; simp [ok.static.notDone x hx]
+  · intro x
+    rw [count_of_sorted hs]; split <;> omega
+
+/-- **C10_once_log** — the same statement read off the GLOBAL log of all deliveries (`s.log`: one entry per
+    OnNext invocation / Post, whoever made it): the entries that belong to a finished Publish call `r`
+    (`dlOf s.log r.f.pid`) are exactly its snapshot, hence (1) exactly once for a subscription registered
+    before and after, (2) never after a completed Unsubscribe, (3) at most once, (4) in subscription order.
+    Call ids are unique among live and finished calls (`PInv`), so no other call contributes entries. -/
+theorem C10_once_log (grow : Nat → Nat) (s : State) (hr : Reach grow s) (r : PubRec) (hmem : r ∈ s.ended) :
+    dlOf s.log r.f.pid = r.f.snap ∧
+    (∀ x, 0 < x → x < r.f.n0 → x ∈ r.regEnd → (dlOf s.log r.f.pid).count x = 1) ∧
+    (∀ x ∈ r.f.done0, (dlOf s.log r.f.pid).count x = 0) ∧
+    (∀ x, (dlOf s.log r.f.pid).count x ≤ 1) ∧
+    (dlOf s.log r.f.pid).Pairwise (· < ·) := by
+  have h := C10_once grow s hr r hmem
+  rw [(PInv_reach grow hr).fin r hmem]
+  exact ⟨h.2.2.2.2.2, h.1, h.2.1, h.2.2.1, h.2.2.2.1⟩
+
+/-- while a Publish is running, its part of the global log is the prefix of the snapshot delivered so far -/
+theorem C10_log_running (grow : Nat → Nat) (s : State) (hr : Reach grow s) (t : Nat) (f : PubF)
+    (hf : .pub f ∈ s.stacks t) : dlOf s.log f.pid = f.snap.take f.k := by
+  rw [(PInv_reach grow hr).live t f hf]
+  exact ((Inv_reach grow hr).frames t _ hf).dl
+
+/-- at every moment of a running Publish: nobody invoked twice, subscription order, only snapshot members -/
+theorem C10_once_running (grow : Nat → Nat) (s : State) (hr : Reach grow s) (t : Nat) (f : PubF)
+    (hf : .pub f ∈ s.stacks t) :
+    (∀ x, f.dl.count x ≤ 1) ∧ f.dl.Pairwise (· < ·) ∧ (∀ x ∈ f.done0, f.dl.count x = 0) ∧
+    (∀ x ∈ f.dl, 0 < x ∧ x < f.n0) := by
+  have ok := (Inv_reach grow hr).frames t _ hf
+  have hsub : (f.snap.take f.k).Sublist f.snap := List.take_sublist _ _
+  have hs : f.dl.Pairwise (· < ·) := by rw [ok.dl]; exact ok.static.sorted.sublist hsub
+  refine ⟨?_, hs, ?_, ?_⟩
+  · intro x; rw [count_of_sorted hs]; split <;> omega
+  · intro x hx
+    rw [count_of_sorted hs]
+    have : x ∉ f.dl := by rw [ok.dl]; exact fun h => ok.static.notDone x hx (hsub.subset h)
+    simp [this]
+  · intro x hx; rw [ok.dl] at hx; exact ok.static.old x (hsub.subset hx)
+
+/-- an Unsubscribe that has returned leaves the subscription unregistered for ever (ids are never reused),
+    and the registered list is always duplicate-free and in subscription order -/
+theorem C10_unsubscribed_stays_out (grow : Nat → Nat) (s : State) (hr : Reach grow s) :
+    (∀ x ∈ s.unsubDone, x ∉ content s.heap s.subs) ∧ (content s.heap s.subs).Pairwise (· < ·) := by
+  have inv := Inv_reach grow hr
+  exact ⟨fun x hx => (inv.done x hx).2.2, inv.wf.sorted⟩
+
+/-- **C10_map_partial** — Map(fn) registers a forwarding subscription `x` whose OnNext(v) is
+    `next.Publish(fn v)` (closing theorem `C10_skel_Map`: `func{callfn(fn) call(Publish)} call(Subscribe)`).
+    For every finished Publish(v) of the origin, the global log contains exactly ONE delivery to `x`, and it
+    carries the value `v` of that call — so `next.Publish(fn v)` is called exactly once per `v` of the origin.
+    PARTIAL: the composition with the derived publisher's own transition system (its C10_once) is argued on
+    paper and exercised by the Map-chain correspondence (depth 1–3), not proved in Lean. -/
+theorem C10_map_partial (grow : Nat → Nat) (s : State) (hr : Reach grow s) (r : PubRec) (hmem : r ∈ s.ended)
+    (x : Nat) (h0 : 0 < x) (hbefore : x < r.f.n0) (hstill : x ∈ r.regEnd) :
+    ((s.log.filter (fun e => e.1 = r.f.pid ∧ e.2.1 = x)).map (fun e => e.2.2.1)) = [r.f.val] := by
+  have hcount := (C10_once_log grow s hr r hmem).2.1 x h0 hbefore hstill
+  have hval := (PInv_reach grow hr).finV r hmem
+  have hlen : (s.log.filter (fun e => e.1 = r.f.pid ∧ e.2.1 = x)).length = 1 := by
+    rw [← hcount]
+    unfold dlOf
+    rw [List.count_reverse, List.count_eq_countP, List.countP_map, List.countP_eq_length_filter, List.filter_filter]
+    congr 1
+    apply List.filter_congr
+    intro e _
+    by_cases h1 : e.2.1 = x
+    · simp [h1]
+    · simp [h1]
+  cases hl : s.log.filter (fun e => e.1 = r.f.pid ∧ e.2.1 = x) with
+  | nil => rw [hl] at hlen; cases hlen
+  | cons e rest =>
+    rw [hl] at hlen
+    have hrest : rest = [] := by
+      cases rest with
+      | nil => rfl
+      | cons _ _ => simp at hlen
+    subst hrest
+    have hm : e ∈ s.log.filter (fun e => e.1 = r.f.pid ∧ e.2.1 = x) := by rw [hl]; simp
+    rw [List.mem_filter] at hm
+    have hp : e.1 = r.f.pid := (of_decide_eq_true hm.2).1
+    have := hval e hm.1 hp
+    simp [this]
+
+/-- **C10_handler** — with SubscribeOn(h) a delivery is exactly one Post (the `deliver` step appends the
+    subscription to `f.dl` and the triple to `posted`/`mailbox` in one step, so `C10_once` counts Posts), and
+    the handler runs the posted deliveries in FIFO order, none lost, none duplicated:
+    posted = run by the handler ++ still queued.  (That the handler eventually runs them is C12.) -/
+theorem C10_handler (grow : Nat → Nat) (s : State) (hr : Reach grow s) :
+    s.posted.reverse = s.hlog.reverse ++ s.mailbox :=
+  (Inv_reach grow hr).hq
+
+/-! ### the pre-fix code (`fixed = false`: in-place compaction) is refuted -/
+
+/-- [A,B,C]; A unsubscribes itself inside its callback -/
+def prefixWitness : List Act :=
+  [.subscribe 0, .subscribe 0, .subscribe 0, .pubBegin 0 7, .deliver 0, .unsubBegin 0 1, .unsubStep 0, .unsubStep 0,
+   .cbReturn 0, .deliver 0, .cbReturn 0, .deliver 0, .cbReturn 0, .pubEnd 0]
+
+/-- (snapshot, invoked, registered at the end) of the most recently finished Publish -/
+def summary (o : Option State) : Option (List Nat × List Nat × List Nat) :=
+  o.bind (fun s => s.ended.head?.map (fun r => (r.f.snap, r.f.dl, r.regEnd)))
+
+/-- the pre-fix Unsubscribe: snapshot [A,B,C], invoked A, C, C (B skipped, C twice) -/
+theorem C10_prefix_in_place_compaction_refuted :
+    summary (run false goGrow init prefixWitness) = some ([1, 2, 3], [1, 3, 3], [2, 3]) := by decide
+
+/-- … so the exactly-once statement is false for the pre-fix mechanism -/
+theorem C10_prefix_not_once :
+    ¬ ∀ acts s, run false goGrow init acts = some s → ∀ r ∈ s.ended, r.f.dl = r.f.snap := by
+  intro h
+  have hw := C10_prefix_in_place_compaction_refuted
+  cases hrun : run false goGrow init prefixWitness with
+  | none => rw [hrun] at hw; cases hw
+  | some s =>
+    rw [hrun] at hw
+    have hall := h prefixWitness s hrun
+    cases hs : s.ended with
+    | nil => simp [summary, hs] at hw
+    | cons r rest =>
+      have := hall r (by rw [hs]; simp)
+      simp [summary, hs] at hw
+      rw [hw.1, hw.2.1] at this
+      cases this
+
+/-- non-vacuity: the same history on the repaired code: snapshot [A,B,C], invoked A, B, C; A is gone afterwards -/
+theorem C10_witness_fixed :
+    summary (run true goGrow init prefixWitness) = some ([1, 2, 3], [1, 2, 3], [2, 3]) := by decide
+
+example : ∃ s, Reach goGrow s ∧ ∃ r ∈ s.ended, r.f.snap = [1, 2, 3] ∧ r.regEnd = [2, 3] := by
+  cases hrun : run true goGrow init prefixWitness with
+  | none => have := C10_witness_fixed; rw [hrun] at this; cases this
+  | some s =>
+    refine ⟨s, C10_run_reach goGrow _ s hrun, ?_⟩
+    have hw := C10_witness_fixed
+    rw [hrun] at hw
+    cases hs : s.ended with
+    | nil => simp [summary, hs] at hw
+    | cons r rest =>
+      simp [summary, hs] at hw
+      exact ⟨r, by simp, hw.1, hw.2.2⟩
+
+/-! ### closing theorems over the regenerated protocol skeletons and slice facts of publisher.go -/
+
+theorem C10_skel_doSubscribeSafe : Gen.skeletonOf "PublisherDef.doSubscribeSafe" =
+    some "call(subscribeM.Lock) callfn(fn) call(subscribeM.Unlock)" := by decide
+
+theorem C10_skel_Publish : Gen.skeletonOf "PublisherDef.Publish" =
+    some "func{get(subscribers) set(subscribers)} call(doSubscribeSafe) range[]{if[]{func{callfn(OnNext)} if[get(subOn)]{get(subOn) call(subOn.Post)}else{callfn(doSub)}}}" := by decide +kernel
+
+theorem C10_skel_Subscribe : Gen.skeletonOf "PublisherDef.Subscribe" =
+    some "func{get(subscribers) call(append) set(subscribers)} call(doSubscribeSafe) return" := by decide
+
+theorem C10_skel_Unsubscribe : Gen.skeletonOf "PublisherDef.Unsubscribe" =
+    some "func{get(subscribers) set(subscribers) range[]{if[]{call(append) call(append) set(subscribers) break}}} call(doSubscribeSafe) if[]{call(Unsubscribe)}" := by decide +kernel
+
+theorem C10_skel_Map : Gen.skeletonOf "PublisherDef.Map" =
+    some "call(PublisherNewGenerics) func{callfn(fn) call(Publish)} call(Subscribe) return" := by decide
+
+theorem C10_skel_SubscribeOn : Gen.skeletonOf "PublisherDef.SubscribeOn" = some "set(subOn) return" := by decide
+
+/-- Unsubscribe's removal allocates: both appends go into a fresh `make(…, 0, …)`, which is what is stored -/
+theorem C10_fact_unsubscribe_copies :
+    Gen.c10Fact "Unsubscribe.appendFirstOperands" = some "fresh-make/locked,fresh-make/locked" ∧
+    Gen.c10Fact "Unsubscribe.storesIntoField" = some "fresh-make/locked" ∧
+    Gen.c10Fact "Unsubscribe.reassignmentsOfFresh" = some "append(fresh-make),append(fresh-make)" ∧
+    Gen.c10Fact "Unsubscribe.makeLengths" = some "0" := by decide
+
+/-- Subscribe appends one element to the field, under the lock -/
+theorem C10_fact_subscribe_appends :
+    Gen.c10Fact "Subscribe.storesIntoField" = some "append(field)+one/locked" := by decide
+
+/-- Publish iterates a header copy taken under the lock, and every delivery closure owns its subscription
+    variable (it runs later, on the handler goroutine, when SubscribeOn is set) -/
+theorem C10_fact_publish_snapshot :
+    Gen.c10Fact "Publish.rangesOver" = some "alias-of-field" ∧
+    Gen.c10Fact "Publish.snapshots" = some "header-copy/locked" ∧
+    Gen.c10Fact "Publish.deliveryClosureOwnsItsSubscription" = some "true" := by decide
+
+end FpgoVerif.C10
